@@ -285,6 +285,7 @@ def run(chk):
     _defpublish_rule(chk, full)
     _funcdefnull_rule(chk, full)
     _refindex_rule(chk, full)
+    _asmtuple_rule(chk, full)
 
 
 def _envvalid_rule(chk, prog):
@@ -1666,3 +1667,64 @@ def _refindex_rule(chk, prog):
                                   "the words in front of the table (its header, or NULL - 8 when the table is still empty) and installs "
                                   "them as an object pointer" % (sx.text(), src.get(v, "an unknown reader"), "below" if hi else "above"))
     chk.floor(rule, 3, n)
+
+
+def _asmtuple_rule(chk, prog):
+    """The assembler's input is arbitrary data.  Where it takes a tuple apart by position (tup[0], tup[1] ... of an
+    instruction, a :sourcemap or a :symbolmap entry) the tuple's length has to be established first: an entry that is
+    too short makes asm read the words behind the tuple and use them as integers or as a symbol pointer."""
+    rule = "C10-ASMTUPLE"
+    chk.rule(rule, "asm reads element k of an input tuple only on paths that established the tuple has more than k elements")
+    tu = prog.tus["asm.c"]
+    n = 0
+    for fn in tu.funcs.values():
+        tv = set()
+        for x in fn.nodes:
+            if x.k in ("asg", "vardecl") and x.kids:
+                rhs = x.kids[-1]
+                if any("janet_unwrap_tuple" in y.macro_names() or (y.k == "call" and y.callee == "janet_unwrap_tuple") for y in rhs.walk()):
+                    tv.add(x.kids[0].name if x.k == "asg" and x.kids[0].k == "ref" else x.name)
+        sites = [x for x in fn.nodes if x.k == "sub" and strip_casts(x.kids[0]).k == "ref" and strip_casts(x.kids[0]).name in tv
+                 and strip_casts(x.kids[1]).k == "int"]
+        if not sites:
+            continue
+        chk.analysed(fn)
+        # janet_asm_error and friends end in longjmp without carrying the noreturn attribute
+        IN, T = flow.condition_facts(fn, dead_calls=prog.is_noreturn)
+        res = {}
+        for x, S in flow.states_at(fn, IN, T):
+            S = flow.live(S)
+            for sx in sites:
+                if x is sx:
+                    v = strip_casts(sx.kids[0]).name
+                    k = strip_casts(sx.kids[1]).v
+                    def covers(ps):
+                        for (op, l, r, toks, ln, rn) in ps:
+                            if ln is None or v not in toks:
+                                continue
+                            if not any("janet_tuple_length" in y.macro_names() for y in ln.walk()):
+                                continue
+                            b = rn.v if rn is not None else 0
+                            if b is None:
+                                continue
+                            if (op == "!=" and b == 0 and k == 0) or (op == ">=" and k < b) or (op == ">" and k <= b) or (op == "==" and k < b):
+                                return True
+                        return False
+                    res[id(sx)] = res.get(id(sx), True) and all(covers(ps) for ps in S)
+        done = set()
+        for sx in sites:
+            key = (sx.loc, sx.text())
+            if key in done:
+                continue
+            done.add(key)
+            n += 1
+            chk.instance(rule)
+            same = [y for y in sites if (y.loc, y.text()) == key]
+            # copies of the expression inside branches the compiler folded away are in no CFG block: nothing to decide
+            if all(res[id(y)] for y in same if id(y) in res):
+                chk.ok(rule, "%s: `%s` after the length was checked" % (fn.name, sx.text()))
+            else:
+                chk.violation(rule, "asm.c", fn.name, "unchecked:%s@%s" % (sx.text(), sx.loc.split(":")[-1]), sx.loc,
+                              "`%s` is read from a tuple of the input whose length was not established on this path: a shorter "
+                              "tuple, e.g. (asm {:bytecode ['(retn)] :sourcemap [[]]}), makes asm read past it" % sx.text())
+    chk.floor(rule, 8, n)
